@@ -106,7 +106,7 @@ package pogreb
 //@   requires offs: forall q int :: off(offsets) <= q && q < off(offsets) + len(offsets) ==> bucketAt(contents(offsets)[q], idx.overflow.size)
 //@   requires inv: idx != nil && idx.overflow != nil && idxFreeOK(idx) && (len(idx.freeBucketOffs) == 0 || arr(idx.freeBucketOffs) != arr(offsets))
 //@   ensures inv: idxFreeOK(idx)
-//@   at call append@1: cases in-place-or-not: len(idx.freeBucketOffs) + len(offsets) <= cap(idx.freeBucketOffs) || len(idx.freeBucketOffs) + len(offsets) > cap(idx.freeBucketOffs)
+//@   at call append@1: cases append-fits: len(idx.freeBucketOffs) + len(offsets) <= cap(idx.freeBucketOffs) || len(idx.freeBucketOffs) + len(offsets) > cap(idx.freeBucketOffs)
 //@   modifies idx.freeBucketOffs, idx.freeBucketOffs[*]
 
 // split: one bucket chain is redistributed over its old main bucket and a new last main bucket; the buckets are
